@@ -4,5 +4,6 @@ INVARIANT NoException
 INVARIANT AfterWellFormed
 INVARIANT NamesKept
 INVARIANT Resolved
+INVARIANT OnlyForksAdded
 INVARIANT FuncKept
 CHECK_DEADLOCK FALSE
